@@ -92,6 +92,8 @@ class Scratch:
         b = os.path.join(self.d, 'target' + ext)
         if dest == 'file':
             open(a, 'wb').write(OLD)
+        elif dest == 'emptyfile':
+            open(a, 'wb').close()
         elif dest in ('link', 'dangling'):
             if dest == 'link':
                 open(b, 'wb').write(OLD)
@@ -185,7 +187,8 @@ def run_case(ctx, sc, req, allowed, variant, rnd):
         except Exception:  # noqa
             return False
     result = do_write(obj, a, fmt, ow, opts)
-    fs = {'a': classify(a, OLD, is_new), 'b': classify(b, OLD, is_new)}
+    old = b'' if dest == 'emptyfile' else OLD
+    fs = {'a': classify(a, old, is_new), 'b': classify(b, old, is_new)}
     case = {'request': req, 'injected': inject, 'via': how, 'ext': ext, 'observed': {'result': result, 'fs': fs}, 'allowed': allowed}
     ctx.case((fmt, ow, ser, dest, inject, how, ext), True)
     ok = any(result == r and fs == f for r, f in allowed)
@@ -201,6 +204,7 @@ def run_case(ctx, sc, req, allowed, variant, rnd):
 
 def init_fs(dest):
     return {'absent': {'a': {'t': 'absent'}, 'b': {'t': 'absent'}}, 'file': {'a': {'t': 'file', 'c': 'old'}, 'b': {'t': 'absent'}},
+            'emptyfile': {'a': {'t': 'file', 'c': 'old'}, 'b': {'t': 'absent'}},
             'link': {'a': {'t': 'link'}, 'b': {'t': 'file', 'c': 'old'}}, 'dangling': {'a': {'t': 'link'}, 'b': {'t': 'absent'}}}[dest]
 
 
